@@ -194,4 +194,44 @@ def run (m : Nat) : Cipher → List Op → List Bytes × Option Panic
       let r := run m s' rest
       (out :: r.1, r.2)
 
+/-! ## re-use of a cipher after a recovered panic, and the calls that panic before touching the state
+
+  Not part of the property statement (a history ends at its first panic there); modelled so that the
+  correspondence run can continue a history after `recover()`:
+  * SetCounter panics before it modifies anything;
+  * XORKeyStream's overflow panic happens after the buffered keystream has been drained
+    (`s.len` is already reduced, `overflow` is not touched);
+  * the "output smaller than input" and "invalid buffer overlap" panics happen before any state change. -/
+
+inductive OpX
+  | xor (src : Bytes)
+  | setCounter (c : UInt32)
+  | xorOverlap (src : Bytes)   -- dst = buf[1:n+1], src = buf[0:n]: inexact overlap iff n ≥ 2
+  | xorShort (src : Bytes)     -- len(dst) = len(src) − 1
+deriving Repr
+
+/-- one step that always returns the state Go leaves behind; `none` = the call panicked -/
+def stepCont (m : Nat) (s : Cipher) : OpX → Cipher × Option Bytes
+  | .xor src =>
+    match xorKeyStream m s src with
+    | .ok (s', out) => (s', some out)
+    | .error _ => ((drain m s src).1, none)
+  | .setCounter c =>
+    match setCounter s c with
+    | .ok s' => (s', some [])
+    | .error _ => (s, none)
+  | .xorOverlap src =>
+    if src.length ≥ 2 then (s, none) else
+    match xorKeyStream m s src with
+    | .ok (s', out) => (s', some out)
+    | .error _ => ((drain m s src).1, none)
+  | .xorShort src =>
+    if src.length = 0 then (s, some []) else (s, none)
+
+def runCont (m : Nat) : Cipher → List OpX → List (Option Bytes)
+  | _, [] => []
+  | s, op :: rest =>
+    let r := stepCont m s op
+    r.2 :: runCont m r.1 rest
+
 end XC.C03
